@@ -170,7 +170,9 @@ Definition kvs_delete_tree (idx : N) (p : string) (s : st) : st :=
   let victims := filter (fun kv => has_prefix p kv.1 = true) (kvs s) in
   if bool_decide (victims = ∅) then s
   else
-    let s1 := s <| kvs ::= filter (fun kv => has_prefix p kv.1 = false) |> in
+    (* the tombstones under the prefix are subsumed by this delete and dropped with it *)
+    let s1 := s <| kvs ::= filter (fun kv => has_prefix p kv.1 = false) |>
+                <| tombs ::= filter (fun kt => has_prefix p kt.1 = false) |> in
     let s2 := if bool_decide (p = "") then s1
               else set_index "tombstones" idx (s1 <| tombs ::= <[p := idx]> |>) in
     set_index "kvs" idx s2.
